@@ -58,6 +58,12 @@ CHECKS = {
     text="Thousands of mutants of the repository's schemas, generated WSDLs, import graphs and an extension/list/union/group schema (dangling, duplicate, self- and mutually-referential QNames, swapped tags, spliced subtrees, odd names, truncation, junk) plus API-edge probes (300 colliding namespaces, 3000 nested sequences, 1500-long forward chains, empty files) are read and written in worker processes under a watchdog. Outcome must be a returned document or a returned error. Failures are clustered by panic site / signal and shrunk.",
     note="Trusted: the worker protocol and watchdog (10 s + 1 s per 100 KB, confirmed twice at 3x before it counts). Nothing is concluded about inputs the mutators and the fuzzer never produce.",
     design="DESIGN.md section 4 C13"),
+ "C14": dict(
+    category="exploration",
+    technique="exhaustive keyword x spelling x position matrix plus proptest-chosen injection payloads at every position where schema text flows into the output; oracle on the token level (syn / proc-macro2: parse, identifier tokens, evaluated string literals) followed by rustc",
+    text="Every Rust keyword (strict, reserved, 2024) in three spellings is used as element, attribute, complex type, simple type, global element, operation, part and message name (1224 WSDLs). Hundreds of payloads built to break out of string literals, attributes, comments, constructors and function bodies (each carrying a unique marker and a unique identifier to inject) are placed at 16 positions (names, enumeration and facet values, documentation, namespace URI, address, soapAction, service name). The output must parse, must not contain the injected identifier as a token, every literal carrying the marker must evaluate to the original text (URLs: equal after parsing), and rustc must accept the file.",
+    note="Trusted: syn, proc-macro2 tokenisation, rustc. Text that only reaches comments is invisible to the token oracle and accepted as long as the file parses and nothing was injected. Inputs the generator rejects are not failures.",
+    design="DESIGN.md section 4 C14"),
  "C15": dict(
     category="fault_enumeration",
     technique="fault injection enumerated over every write call of the sink (fail-once and dead-sink modes, rotated error kinds, Interrupted, short writes) with an Err/Ok/panic oracle and byte comparison",
